@@ -9,7 +9,7 @@ TARGET = dict(
                  "add_date on a stored value UINT64_MAX with a type set is don't-care (comment says adds, code skips)",
                  "only success/failure of the int-returning accessors is compared, not the exact error code"],
     execs=[dict(name="clock", harness="harness/C11_clock.c", repo=LIBUPIPE, engine=MEMFIX)],
-    quick=dict(cases=40000, budget=40), thorough=dict(cases=700000, budget=360),
+    quick=dict(cases=150000, budget=40), thorough=dict(cases=700000, budget=360),
 )
 META = dict(
     technique="model-based property testing (rapidcheck tapes -> stateful C executor) against statement-level invariants and an independent modular-arithmetic reference model, under ASan",
